@@ -1,5 +1,6 @@
 """U1 — codec: reader/writer primitives, enum tables, all packet (de)serialisers of passage-packets."""
 import os
+import re
 import sys
 
 HERE = os.path.dirname(os.path.abspath(__file__))
@@ -7,7 +8,7 @@ sys.path.insert(0, os.path.join(HERE, "..", "..", "lib"))
 import vxlib  # noqa: E402
 
 NAME = "U1"
-RLIMIT = 60
+RLIMIT = 30
 PROPS = ["C09", "C04"]
 
 PK = "passage-packets/src/"
@@ -22,6 +23,9 @@ STATICS = {"std::io::ErrorKind::UnexpectedEof.into()": "vx_eof_error()"}
 READER_FNS = ["read_varint", "read_varlong", "read_string", "read_bool", "read_uuid", "read_text_component", "read_bytes"]
 WRITER_FNS = ["write_packet", "write_varint", "write_varlong", "write_string", "write_uuid", "write_bool", "write_text_component", "write_bytes"]
 ENUMS = ["State", "ResourcePackResult", "ChatMode", "MainHand", "ParticleStatus"]
+# spec tables of enums.rs (ordinal-of, value-of)
+ENUM_SPEC = {"State": ("state_ord", "state_of"), "ResourcePackResult": ("rpr_ord", "rpr_of"), "ChatMode": ("chat_ord", "chat_of"),
+             "MainHand": ("hand_ord", "hand_of"), "ParticleStatus": ("particle_ord", "particle_of")}
 
 
 def read_text(name):
@@ -73,8 +77,10 @@ def build(vacuity=False, only=None):
     items.append({"key": "struct.DisplayedSkinParts", "file": PK + "lib.rs", "kind": "struct", "name": "DisplayedSkinParts", "rules": ["attrs"]})
     for e in ENUMS:
         items.append({"key": f"enum.{e}", "file": PK + "lib.rs", "kind": "enum", "name": e, "rules": ["attrs"]})
-        items.append({"key": f"impl.From.{e}", "file": PK + "lib.rs", "kind": "impl", "self_ty": "VarInt", "trait": f"From<{e}>", "rules": ["attrs"]})
-        items.append({"key": f"impl.TryFrom.{e}", "file": PK + "lib.rs", "kind": "impl", "self_ty": e, "trait": "TryFrom<VarInt>", "rules": ["attrs"]})
+        items.append({"key": f"enum.{e}.from", "file": PK + "lib.rs", "kind": "impl_fn", "self_ty": "VarInt", "trait": f"From<{e}>", "name": "from", "rules": ["attrs"],
+                      "anchors": ["fn:begin"] if vacuity else []})
+        items.append({"key": f"enum.{e}.try_from", "file": PK + "lib.rs", "kind": "impl_fn", "self_ty": e, "trait": "TryFrom<VarInt>", "name": "try_from", "rules": ["attrs"],
+                      "anchors": ["fn:begin"] if vacuity else []})
     # --- reader / writer fns
     for f in READER_FNS:
         key = f"reader.{f}"
@@ -94,7 +100,7 @@ def build(vacuity=False, only=None):
         items.append({**base, "key": f"{pk}.ID", "kind": "impl_const", "self_ty": ty, "trait": "Packet", "name": "ID", "rules": ["attrs"]})
         anch = ["fn:begin"] if vacuity else []
         items.append({**base, "key": f"{pk}.write_to_buffer", "kind": "impl_fn", "self_ty": ty, "trait": "WritePacket", "name": "write_to_buffer",
-                      "rules": FN_RULES, "subst": {"S": "Vec<u8>"}, "drop_generics": ["S"], "anchors": anch + ["fn:before-tail"]})
+                      "rules": FN_RULES, "subst": {"S": "Vec<u8>"}, "drop_generics": ["S"], "anchors": ["fn:begin"]})
         items.append({**base, "key": f"{pk}.read_from_buffer", "kind": "impl_fn", "self_ty": ty, "trait": "ReadPacket", "name": "read_from_buffer",
                       "rules": FN_RULES, "subst": {"S": "Reader"}, "drop_generics": ["S"], "anchors": anch})
     ex = vxlib.run_vx(items)
@@ -113,16 +119,30 @@ def build(vacuity=False, only=None):
     for e in ENUMS:
         u.raw("#[derive(Clone, Copy, PartialEq, Eq, Structural)]\n")
         u.add_item_text(ex[f"enum.{e}"])
-        u.add_item_text(ex[f"impl.From.{e}"])
-        u.add_item_text(ex[f"impl.TryFrom.{e}"])
-        u.fn_meta[f"enum.{e}.from"] = {"file": ex[f"impl.From.{e}"]["file"], "lines": [ex[f"impl.From.{e}"]["line_start"], ex[f"impl.From.{e}"]["line_end"]], "mode": "verify", "props": ["C09"], "loops": 0, "rules": {}}
-        u.fn_meta[f"enum.{e}.try_from"] = {"file": ex[f"impl.TryFrom.{e}"]["file"], "lines": [ex[f"impl.TryFrom.{e}"]["line_start"], ex[f"impl.TryFrom.{e}"]["line_end"]], "mode": "verify", "props": ["C09"], "loops": 0, "rules": {}}
+        ordf, off = ENUM_SPEC[e]
+        fi = ex[f"enum.{e}.from"]
+        pname = re.search(r"fn from\((\w+):", fi["sig"]).group(1)
+        fc = vxlib.FnContract(f"enum.{e}.from", {"props": ["C09"], "ensures": [
+            {"id": f"C09.enum.{e}.from_table", "props": ["C09"], "text": f"r == {ordf}({pname})"}]})
+        u.raw(f"pub mod enum_impl_{e} {{\n    use super::*;\n")
+        u.modules.append(f"enum_impl_{e}")
+        u.raw(f"impl From<{e}> for VarInt {{\n")
+        u.add_fn(fi, fc, vacuity=vacuity, indent="    ")
+        u.raw("}\n")
+        ti = ex[f"enum.{e}.try_from"]
+        tname = re.search(r"fn try_from\((\w+):", ti["sig"]).group(1)
+        tc = vxlib.FnContract(f"enum.{e}.try_from", {"props": ["C09"], "ensures": [
+            {"id": f"C09.enum.{e}.try_from_table", "props": ["C09"], "text": f"r == {off}({tname})"}]})
+        u.raw(f"impl TryFrom<VarInt> for {e} {{\n    type Error = Error;\n")
+        u.add_fn(ti, tc, vacuity=vacuity, indent="    ")
+        u.raw("}\n}\n")
     u.raw("} // verus!\n")
     u.raw(read_text("enums.rs"))
     u.raw(read_text("traits.rs"))
     u.raw("verus! {\n")
 
     # reader
+    u.modules += ["reader", "writer"]
     u.raw("pub mod reader {\n    use super::*;\n    use super::fastnbt::{DeOpts, Value};\n    impl Reader {\n")
     for f in READER_FNS:
         key = f"reader.{f}"
@@ -154,6 +174,7 @@ def build(vacuity=False, only=None):
         for modpath, tys in mods:
             for m in modpath:
                 u.raw(f"    pub mod {m} {{\n    use super::*;\n")
+            u.modules.append("::".join([pf] + list(modpath)))
             for ty in tys:
                 pk = ".".join([pf] + list(modpath) + [ty])
                 st = ex[f"{pk}.struct"]
@@ -183,7 +204,7 @@ def build(vacuity=False, only=None):
                       f"            <{ty} as Packet>::ID == <{ty} as WireSpec>::proto_id(), // @cl:{cid}\n    {{}}\n"
                       f"    // @fn-end:{pk}.ID\n")
                 u.fn_meta[f"{pk}.ID"] = {"file": ex[pk + ".ID"]["file"], "lines": [ex[pk + ".ID"]["line_start"], ex[pk + ".ID"]["line_end"]], "mode": "verify", "props": ["C09"], "loops": 0, "rules": {}}
-                hint = {"fn:before-tail": "proof { assert(buffer@ =~= old(buffer)@ + self.enc_then(Seq::empty())); }"} if st["fields"] else {}
+                hint = {"fn:begin": "broadcast use {lemma_add_assoc, lemma_add_empty};"} if st["fields"] else {}
                 wc = vxlib.FnContract(f"{pk}.write_to_buffer", {"props": ["C04", "C09"], "proof": hint})
                 rc = vxlib.FnContract(f"{pk}.read_from_buffer", {"props": ["C04", "C09"]})
                 u.raw(f"    impl WritePacket for {ty} {{\n")
